@@ -735,7 +735,7 @@ func runMinimize(t *simrt.Tape, rc *RunCtx) *Violation {
 	in.describe(rc.Instance)
 	prop := activeProp
 	c19 := prop == "C19"
-	rc.declare("evaluation_dispatched_after_done", "limit_overshoot_by_concurrency", "result_nil_early_error", "recorder_error_injected", "status_callback_terminated_run",
+	rc.declare("limit_overshoot_by_concurrency", "result_nil_early_error", "recorder_error_injected", "status_callback_terminated_run",
 		"runtime_limit_hit", "nan_or_inf_objective_hit", "method_done_with_tasks_in_flight", "trailing_major_iterations", "init_values_used", "isolated_cause_run",
 		"concurrent_evaluations_overlapped", "tiny_limit_below_one_generation")
 
@@ -763,6 +763,17 @@ func runMinimize(t *simrt.Tape, rc *RunCtx) *Violation {
 	}
 	name := methodNames[in.method]
 	res, err, log := r.res, r.err, r.log
+	rc.hist("method=" + name)
+	if usesLS(in.method) {
+		rc.hist("linesearcher=" + []string{"default", "Backtracking", "Bisection", "MoreThuente"}[in.ls])
+	}
+	rc.hist(fmt.Sprintf("concurrent=%d", in.conc))
+	if res != nil {
+		rc.hist("status=" + res.Status.String())
+	}
+	if err != nil {
+		rc.hist("returned_error")
+	}
 	if log.overflow {
 		return nil // more evaluations than the log holds: nothing further is asserted
 	}
@@ -1023,6 +1034,10 @@ func checkC19(rc *RunCtx, in *minInst, r *minRun, nTasks int) *Violation {
 			if n := gradNormInf(in.obj, res.X); !(n < th) {
 				return bad(fmt.Sprintf("the gradient norm at X is %v, threshold %v", n, th))
 			}
+		}
+	case optimize.FunctionConvergence:
+		if in.convKind == 1 {
+			return bad("the Converger is NeverTerminate")
 		}
 	case optimize.FunctionNegativeInfinity:
 		if !math.IsInf(res.F, -1) {
